@@ -269,6 +269,87 @@ func cases(tier string, want func(docIdx int64) bool, f func(idx int64, doc, mod
 			})
 		})
 	}
+	// the size sweep (enum/size.go: every width and depth up to the bound, then the neighbours of the powers of two) and
+	// the fingerprint twins (enum/twins.go): the two builds have readers and growers of their own, so a size threshold
+	// or a name shortcut in one of them shows only here
+	upTo, far, deepTo, deepFar := 300, 1030, 130, 260
+	if tier == "thorough" {
+		upTo, far, deepTo, deepFar = 1100, 2100, 300, 520
+	}
+	sweep := func(sh enum.SizeShape) {
+		names := make([]string, len(sh.Names))
+		for i, nm := range sh.Names {
+			names[i] = nm
+			if strings.HasPrefix(nm, "c0") || strings.HasPrefix(nm, "c1") || nm == "bk" {
+				names[i] = nm + ".go" // (the dry-run mode has ".go" among its extensions)
+			}
+		}
+		emitN(4, func() string { return enum.Spell(sh.D, names, enum.Spelling{Unit: "\t", Bullets: []byte("-*")}) })
+	}
+	enum.DeepShapes(enum.Sizes(deepTo, deepFar), sweep)
+	enum.WideShapes(enum.Sizes(upTo, far), sweep)
+	enum.TwinShapes(sweep)
+	// one root whose rendering is larger than a typical buffer (4 KiB, 64 KiB, thorough: 1 MiB; just below and above) among small
+	// roots, at the first, a middle and the last place: the roots come out in document order, whatever their sizes
+	bigKids := []int{280, 300, 4600, 4800}
+	if tier == "thorough" {
+		bigKids = append(bigKids, 72000, 76000) // (the tinywasm spreader is quadratic in the size of its output)
+	}
+	for _, kids := range bigKids {
+		for _, place := range []int{0, 1, 2} {
+			emitN(2, func() string {
+				var sb strings.Builder
+				for r := 0; r < 3; r++ {
+					if r == place {
+						sb.WriteString("- big\n")
+						for i := 0; i < kids; i++ {
+							fmt.Fprintf(&sb, "\t- k%06d\n", i)
+						}
+					} else {
+						fmt.Fprintf(&sb, "- small%d\n\t- s\n", r)
+					}
+				}
+				return sb.String()
+			})
+		}
+	}
+	// lines made of the marker characters themselves ("---" is the item "--"), every sequence of up to three lines
+	{
+		u := "  "
+		alpha := []string{"- a", u + "- b", "---", "***", "+++", "--", "**", "-- -", u + "---", u + "****", u + "--", "- ---", "___", "###", "## #", "----  ", u + u + "- c", u + "+++"}
+		for L := 1; L <= 3 && ok; L++ {
+			enum.Tuples(L, len(alpha), func(t []int) {
+				emitN(4, func() string { return strings.Join(enum.Pick(alpha, t), "\n") + "\n" })
+			})
+		}
+	}
+	// white-space-only lines of every kind (enum.ExoticBlanks) at every position of every forest of up to three nodes,
+	// and the line-end alphabet (carriage returns at the end of and inside names)
+	for n := 1; n <= 3 && ok; n++ {
+		enum.DepthSeqs(n, func(d0 []int) {
+			d := append([]int{}, d0...)
+			names := []string{"a", "b.go", "c"}[:n]
+			for pos := 0; pos <= n; pos++ {
+				for g := 9; g < 9+len(enum.ExoticBlanks); g++ {
+					gaps := make([]int, n+1)
+					gaps[pos] = g
+					emitN(4, func() string {
+						return enum.Spell(d, names, enum.Spelling{Unit: "  ", Bullets: []byte("-"), Gaps: gaps, CRLF: (g+pos)%3 == 0})
+					})
+				}
+			}
+		})
+	}
+	{
+		alpha := []string{"- a", "  - b", "- a\r", "  - b\r", "- a\r\r", "  - b \r", "\r", "  - a\rb", "    - c\r\r"}
+		for L := 1; L <= 3 && ok; L++ {
+			enum.Tuples(L, len(alpha), func(t []int) {
+				for _, final := range []string{"\n", "", "\r\n"} {
+					emitN(4, func() string { return strings.Join(enum.Pick(alpha, t), "\n") + final })
+				}
+			})
+		}
+	}
 }
 
 func main() {
